@@ -222,7 +222,12 @@ class tensorflow_backend:
             # Use a tensor attribute that isn't meaningless when eager execution is enabled
             tensor.device
         except AttributeError:
-            tensor = tf.convert_to_tensor(tensor_in)
+            try:
+                # convert straight to the requested dtype: without it Python
+                # floats become float32 first and are rounded to single precision
+                tensor = tf.convert_to_tensor(tensor_in, dtype=dtype)
+            except (TypeError, ValueError):
+                tensor = tf.convert_to_tensor(tensor_in)
         if tensor.dtype is not dtype:
             tensor = tf.cast(tensor, dtype)
         return tensor
